@@ -368,7 +368,62 @@ def lookup_unit(p, item, tier, seed):
             lookup_check(p, name, table, as_tuples=True)
     elif kind == "dont-care":
         db = get_db(name)
-        EXCL = [None, ("INPUT",), ("INPUT", "NOT"), ("INPUT", "NOT", "XOR", "NXOR"), ("INPUT", "NOT", "AND", "OR", "NAND", "NOR"), ("INPUT", "NOT", "IFF", "XOR", "NXOR", "AND")]
+        # () is a legal measure too: nothing excluded, every gate counts (an *empty* list is not "no list given")
+        EXCL = [None, (), (), ("INPUT",), ("INPUT", "NOT"), ("INPUT", "NOT", "XOR", "NXOR"), ("INPUT", "NOT", "AND", "OR", "NAND", "NOR"), ("INPUT", "NOT", "IFF", "XOR", "NXOR", "AND")]
+        def dc_one(n, m, table, model, dcs, excl_names, excl):
+            for i, j in dcs:
+                model[i][j] = DontCare
+            p.case(("dc", name, repr(table), repr(dcs), excl_names), sample=f"{name} don't-care look-up {m}x{1 << n} with {len(dcs)} don't-cares" if len(p.samples) < 6 else None)
+            msrc = "[" + ", ".join("[" + ", ".join("DontCare" if v is DontCare else repr(v) for v in r) + "]" for r in model) + "]"
+            src = (REPLAY_PRELUDE + "import itertools\nfrom checks import c17\nfrom cirbo.core.logic import DontCare\n" + f"M={msrc}\ndcs={dcs!r}\ndb=c17.get_db({name!r})\n"
+                   f"from cirbo.core.circuit import gate as G\nexcl={'None' if excl_names is None else '()' if not excl_names else '(' + ', '.join('G.' + t for t in excl_names) + ',)'}\n"
+                   "c=db.get_by_raw_truth_table_model([list(r) for r in M], exclusion_list=excl)\nbad=[]\n"
+                   "best=None\n"
+                   "for sub in itertools.product((False,True), repeat=len(dcs)):\n"
+                   "    T=[[False if v is DontCare else v for v in r] for r in M]\n"
+                   "    for (i,j),v in zip(dcs,sub): T[i][j]=v\n"
+                   "    k=db.get_by_raw_truth_table(T)\n"
+                   "    if k is not None: best=k.gates_number(excl) if best is None else min(best,k.gates_number(excl))\n"
+                   "if c is None:\n    if best is not None: bad.append('nothing returned although a completion is stored')\n"
+                   "else:\n    tt=c.get_truth_table()\n"
+                   "    if any(M[i][j] is not DontCare and tt[i][j]!=M[i][j] for i in range(len(M)) for j in range(len(M[0]))): bad.append('disagrees with a defined entry')\n"
+                   "    if best is not None and c.gates_number(excl)>best: bad.append(('larger than a completion', c.gates_number(excl), best))\n"
+                   "print(bad); sys.exit(1 if bad else 0)\n")
+            try:
+                c = db.get_by_raw_truth_table_model([list(r) for r in model], exclusion_list=excl)
+            except Exception as e:  # noqa: BLE001
+                p.violation(f"lookup-dc:{name}:raises:{type(e).__name__}", f"don't-care look-up raised {type(e).__name__}: {e}", src)
+                return
+            best = None
+            for sub in itertools.product(B, repeat=len(dcs)):
+                T = [[False if v is DontCare else v for v in r] for r in model]
+                for (i, j), v in zip(dcs, sub):
+                    T[i][j] = v
+                k = db.get_by_raw_truth_table(T)
+                if k is not None:
+                    best = k.gates_number(excl) if best is None else min(best, k.gates_number(excl))
+            bad = None
+            if c is None:
+                if best is not None:
+                    bad = "nothing returned although a completion is stored"
+            else:
+                tt = c.get_truth_table()
+                if len(tt) != m or any(model[i][j] is not DontCare and tt[i][j] != model[i][j] for i in range(m) for j in range(1 << n)):
+                    bad = "result disagrees with a defined entry"
+                elif best is not None and c.gates_number(excl) > best:
+                    bad = f"result has {c.gates_number(excl)} gates (not counting {excl_names}), a completion is stored with {best}"
+            if bad:
+                p.violation(f"lookup-dc:{name}:{bad.split(' ')[0]}", f"model {model}: {bad}", src)
+
+        # systematic part: every one-output model over two inputs (3^4 tables: each entry False / True / don't-care),
+        # under "no list given", the empty list (count everything) and two lists that count the NOT gates
+        for cells in itertools.product((False, True, None), repeat=4):
+            dcs_ = [(0, j) for j, v in enumerate(cells) if v is None]
+            if not dcs_ or (arg < 60 and (sum(3 ** k_ * (0 if v is False else 1 if v else 2) for k_, v in enumerate(cells)) + len(name)) % 2):
+                continue
+            for excl_names_ in (None, (), ("INPUT",), ("INPUT", "IFF")):
+                table_ = [[bool(v) for v in cells]]
+                dc_one(2, 1, table_, [list(r) for r in table_], dcs_, excl_names_, None if excl_names_ is None else tuple(getattr(G, t_) for t_ in excl_names_))
         for it_ in range(arg):
             n = rnd.choice([2, 3])
             m = rnd.choice([1, 2, 3])
@@ -402,51 +457,9 @@ def lookup_unit(p, item, tier, seed):
                 # the first entry decides whether an output is stored negated: leave it open in several outputs at once,
                 # under a measure that counts the NOT gates a denormalisation adds
                 dcs = [(i, 0) for i in range(m)] + ([(rnd.randrange(m), rnd.randrange(1, 1 << n))] if rnd.random() < 0.3 else [])
-                excl_names = rnd.choice([("INPUT",), ("INPUT",), ("INPUT", "IFF")])
+                excl_names = rnd.choice([("INPUT",), (), ("INPUT", "IFF")])
                 excl = tuple(getattr(G, t) for t in excl_names)
-            for i, j in dcs:
-                model[i][j] = DontCare
-            p.case(("dc", name, repr(table), repr(dcs), excl_names), sample=f"{name} don't-care look-up {m}x{1 << n} with {len(dcs)} don't-cares" if len(p.samples) < 6 else None)
-            msrc = "[" + ", ".join("[" + ", ".join("DontCare" if v is DontCare else repr(v) for v in r) + "]" for r in model) + "]"
-            src = (REPLAY_PRELUDE + "import itertools\nfrom checks import c17\nfrom cirbo.core.logic import DontCare\n" + f"M={msrc}\ndcs={dcs!r}\ndb=c17.get_db({name!r})\n"
-                   f"from cirbo.core.circuit import gate as G\nexcl={'None' if excl_names is None else '(' + ', '.join('G.' + t for t in excl_names) + ',)'}\n"
-                   "c=db.get_by_raw_truth_table_model([list(r) for r in M], exclusion_list=excl)\nbad=[]\n"
-                   "best=None\n"
-                   "for sub in itertools.product((False,True), repeat=len(dcs)):\n"
-                   "    T=[[False if v is DontCare else v for v in r] for r in M]\n"
-                   "    for (i,j),v in zip(dcs,sub): T[i][j]=v\n"
-                   "    k=db.get_by_raw_truth_table(T)\n"
-                   "    if k is not None: best=k.gates_number(excl) if best is None else min(best,k.gates_number(excl))\n"
-                   "if c is None:\n    if best is not None: bad.append('nothing returned although a completion is stored')\n"
-                   "else:\n    tt=c.get_truth_table()\n"
-                   "    if any(M[i][j] is not DontCare and tt[i][j]!=M[i][j] for i in range(len(M)) for j in range(len(M[0]))): bad.append('disagrees with a defined entry')\n"
-                   "    if best is not None and c.gates_number(excl)>best: bad.append(('larger than a completion', c.gates_number(excl), best))\n"
-                   "print(bad); sys.exit(1 if bad else 0)\n")
-            try:
-                c = db.get_by_raw_truth_table_model([list(r) for r in model], exclusion_list=excl)
-            except Exception as e:  # noqa: BLE001
-                p.violation(f"lookup-dc:{name}:raises:{type(e).__name__}", f"don't-care look-up raised {type(e).__name__}: {e}", src)
-                continue
-            best = None
-            for sub in itertools.product(B, repeat=len(dcs)):
-                T = [[False if v is DontCare else v for v in r] for r in model]
-                for (i, j), v in zip(dcs, sub):
-                    T[i][j] = v
-                k = db.get_by_raw_truth_table(T)
-                if k is not None:
-                    best = k.gates_number(excl) if best is None else min(best, k.gates_number(excl))
-            bad = None
-            if c is None:
-                if best is not None:
-                    bad = "nothing returned although a completion is stored"
-            else:
-                tt = c.get_truth_table()
-                if len(tt) != m or any(model[i][j] is not DontCare and tt[i][j] != model[i][j] for i in range(m) for j in range(1 << n)):
-                    bad = "result disagrees with a defined entry"
-                elif best is not None and c.gates_number(excl) > best:
-                    bad = f"result has {c.gates_number(excl)} gates (not counting {excl_names}), a completion is stored with {best}"
-            if bad:
-                p.violation(f"lookup-dc:{name}:{bad.split(' ')[0]}", f"model {model}: {bad}", src)
+            dc_one(n, m, table, model, dcs, excl_names, excl)
 
 
 def run(rep, tier, seed, only=None):
